@@ -73,7 +73,8 @@ def oracle(rec, A):
         zre = [zz[0] for zz in rec["z"]]
         rest = 0.5 * zre[0] * abs(F[0]) ** 2 + zre[nmax // 2] * abs(F[nmax // 2]) ** 2
         total = sum(zre[k] * abs(F[k]) ** 2 for k in range(nmax // 2 + 1))
-        if not abs(lhs - (pair + rest)) <= 2e-4 * (abs(total) + abs(pair)) + 1e-30:
+        mag = sum(abs(complex(*rec["z"][k])) * abs(F[k]) ** 2 for k in range(nmax // 2 + 1))
+        if not abs(lhs - (pair + rest)) <= 2e-4 * (abs(total) + abs(pair) + mag) + 1e-30:
             return ("Parseval: power/(df*dq^2) = %g, but 1/2*sum(rho*W)/scale + zero-frequency/Nyquist terms = %g"
                     % (lhs, pair + rest))
         # intensity = sum of the spectrum * df
